@@ -67,6 +67,14 @@ def make_frame(rng, saturated=False):
             df.loc[df.index[4:8], 'A'] = 0
         df['K'] = 0
         emodel = ' + '.join(covs)
+        # an effect modifier of the structural model need not be a linear term of the exposure model: sometimes W0 enters
+        # the exposure model only through a categorisation, or not at all (the estimating equations do not care)
+        k = rng.random()
+        if k < 0.25 and 'W0' in covs:
+            df['W0c'] = (df['W0'] > df['W0'].median()).astype(int)
+            emodel = ' + '.join([c for c in covs if c != 'W0'] + ['C(W0c)'])
+        elif k < 0.4 and len(covs) > 1:
+            emodel = ' + '.join(covs[1:])
     outcome = rng.choice(['continuous', 'continuous', 'binary'])
     eff = rng.uniform(-1.5, 2.5)
     mu = 1 + np.asarray(lin) + df['A'] * (eff + 0.6 * df[covs[0]])
